@@ -43,7 +43,19 @@ def file_event(IndxIO, tid, arity, common, ents, wd, index=None, cuts=True):
     """save(ents) -> bytes; load(bytes); load(bytes[:k]) for every k."""
     import numpy as np
     path = os.path.join(wd, "f%d.indx" % (tid % 64))
-    entries = {tuple(c): np.array(r, dtype=np.uint32) for c, r in ents}
+    entries = {}
+    for j, (c, r) in enumerate(ents):
+        if (tid + j) % 3 == 0 and len(r):
+            # a non-contiguous row-id array: every second element of a padded buffer (a column of a 2-D table)
+            base = np.full(2 * len(r), 0xDEADBEEF, dtype=np.uint32)
+            base[0::2] = r
+            entries[tuple(c)] = base[0::2]
+        elif (tid + j) % 3 == 1 and len(r):
+            ro = np.array(r, dtype=np.uint32)
+            ro.setflags(write=False)                       # a read-only array (e.g. memory-mapped)
+            entries[tuple(c)] = ro
+        else:
+            entries[tuple(c)] = np.array(r, dtype=np.uint32)
     ev = {"tid": tid, "kind": "file", "x": xjson(arity, common, ents), "rws": 4, "saveexc": False, "bytes": [],
           "loaded": BAD, "accepted": [], "rebuilt": True}
     try:
@@ -176,7 +188,7 @@ def gen_file_cases(tier, seed):
                 continue
             cases.append((arity, 0, [(k, [j, j + 5]) for j, k in enumerate(keys)]))
     # several entries
-    n = 120 if tier == "quick" else 3000
+    n = 500 if tier == "quick" else 5000
     for _ in range(n):
         arity = rnd.choice([1, 1, 2, 2, 3, 4])
         k = rnd.choice([2, 3, 3, 5, 8]) if tier == "quick" else rnd.choice([2, 3, 5, 8, 20])
